@@ -440,6 +440,16 @@ def _eq(I, t, o):
     return ST.ew(I, lambda x, y: sc_cmp_g("eq", x, y), t, o, dtype="bool")
 
 
+def _cmp_meth(name):
+    def f(I, t, o):
+        return ST.ew(I, lambda x, y: sc_cmp_g(name, x, y), t, o, dtype="bool")
+    return f
+
+
+for _n in ("ne", "lt", "le", "gt", "ge"):
+    METH[_n] = _cmp_meth(_n)
+
+
 @meth("any")
 def _any(I, t, *a, **k):
     """any() over a symbolic extent: a fresh Bool b with the contract  b <=> exists index. element  (assumed)"""
@@ -512,6 +522,15 @@ def f_arange(I, *a, dtype=None, device=None, **k):
     return ST((a[0],), (lambda i: z3.ToReal(to_z3(i))) if dt == "float" else (lambda i: to_z3(i)), dt)
 
 
+def f_empty(I, *size, dtype=None, device=None, **k):
+    """torch.empty: arbitrary contents (a fresh uninterpreted function of the index)"""
+    if len(size) == 1 and isinstance(size[0], (tuple, list)):
+        size = tuple(size[0])
+    dt = ct.dtype_tag(dtype, "float")
+    f = _fresh("empty", *([z3.IntSort()] * len(size) + [{"long": z3.IntSort(), "float": z3.RealSort(), "bool": z3.BoolSort()}[dt]]))
+    return ST(tuple(size), lambda *idx: f(*[to_z3(i) for i in idx]), dt)
+
+
 def f_full(I, size, v, dtype=None, device=None, **k):
     return ST.const(tuple(size), v if not (isinstance(v, int) and ct.dtype_tag(dtype, "long") == "float") else v, ct.dtype_tag(dtype, ct.scalar_dtype(v)))
 
@@ -543,7 +562,7 @@ def dispatch(name, ct_fn):
     return f
 
 
-FUNCS.update({"torch.arange": f_arange, "torch.full": f_full, "torch.full_like": f_full_like, "torch.where": f_where, "torch.min": f_min})
+FUNCS.update({"torch.empty": f_empty, "torch.arange": f_arange, "torch.full": f_full, "torch.full_like": f_full_like, "torch.where": f_where, "torch.min": f_min})
 
 
 def stubs():
